@@ -196,6 +196,8 @@ func (e *Env) sortOfName(s string) (Sort, types.Type) {
 		return ArraySort(SStr, SInt), nil
 	case "IntIntMap":
 		return ArraySort(SInt, SInt), nil
+	case "IntStrMap":
+		return ArraySort(SInt, SStr), nil
 	case "IfaceIntMap":
 		return ArraySort(SIface, SInt), nil
 	}
